@@ -52,24 +52,18 @@ Section Spec.
     sum_terms e vzero (stoich_terms m x).
 
   (** value of each parameter: the given input for a free one, the model's value otherwise *)
-  Fixpoint free_val (free : list name) (fv : list V) (n : name) : option V :=
-    match free, fv with
-    | k :: fr, v :: vr => if N.eqb n k then Some v else free_val fr vr n
-    | _, _ => None
-    end.
-
   Record Resolved (m : cmodel V) (free : list name) (fv : list V) (t : V) (y : list V) (e : env) : Prop := {
     res_time : e tname = t;
     res_vars : map e (m_var m) = y;
-    res_free : length fv = length free /\ forall n v, free_val free fv n = Some v -> e n = v;
-    res_pars : forall n ia v, In (n, (ia, v)) (m_par m) -> free_val free fv n = None -> e n = v;
+    res_free : map e free = fv;
+    res_pars : forall n ia v, In (n, (ia, v)) (m_par m) -> ~ In n free -> e n = v;
     res_der : forall n f a, In (n, (f, a)) (m_der m) -> fsem f (map e a) = Some (e n);
     res_rxn : forall n f a st, In (n, (f, a, st)) (m_rxn m) -> fsem f (map e a) = Some (e n);
     res_coef : forall n f a st x g ga, In (n, (f, a, st)) (m_rxn m) -> In (x, CDyn g ga) st ->
                                        exists v, fsem g (map e ga) = Some v
   }.
 
-  (** ---- guards of the partial theorem (the complement is the recorded findings) ------ *)
+  (** ---- guards of the theorem (the complement is the recorded findings) ------ *)
   Definition NoAssignedParams (m : cmodel V) : Prop :=
     forall n ia v, In (n, (ia, v)) (m_par m) -> ia = false.
   Definition EveryVariableHasReaction (m : cmodel V) : Prop :=
